@@ -181,7 +181,26 @@ pub fn mutate(rng: &mut Rng, img: &mut Vec<u8>) -> &'static str {
     let version = image_version(img);
     let heads = head_sectors(img);
     let markers = marker_sectors(img);
-    match rng.below(18) {
+    match rng.below(19) {
+        18 => {
+            // a journal record whose header is intact except for a forged entry count (or state): the
+            // checksum fields still agree with each other, so a decoder that slices by the count
+            // before checking it reads beyond the slot
+            let slot = rng.below(2) as usize;
+            let base = (1 + 3 * slot) * B;
+            if img[base..base + 8] != *b"\0FEOXAJ1" {
+                let exts: Vec<(u64, usize)> = (0..rng.range(1, 4)).map(|i| (16 + 2 * i, 1usize)).collect();
+                if let Ok(enc) = pure::journal_encode_active(rng.range(1, 1 << 30), &exts) {
+                    img[base..base + enc.len()].copy_from_slice(&enc);
+                }
+            }
+            let count = *rng.pick(&[0u32, 1025, 1531, 1532, 1536, 2051, 4096, 65_535, 1 << 20, u32::MAX]);
+            img[base + 28..base + 32].copy_from_slice(&count.to_le_bytes());
+            if rng.chance(1, 4) {
+                img[base + 24..base + 28].copy_from_slice(&rng.pick(&[0u32, 1, 2, u32::MAX]).to_le_bytes());
+            }
+            "forged-journal-count"
+        }
         17 => {
             if let Some(name) = plant_stale_generation(rng, img) {
                 return name;
